@@ -173,8 +173,9 @@ static void run_case(vh_ctx *c)
     for (b = 0; b < B_N; b++) if (e && !strcmp(e, BNAME[b])) g_prop = b;
     if (g_prop < 0) { vh_class(c, "no-bundle"); vh_inconclusive(c, "CCONC_PROP not set to a known property"); return; }
   }
-  /* one reported processor (no inner fan-out) or, for every other case, two: PCA / CPCA then run their threaded matrix-vector kernels inside each caller */
-  libsci_verif_nprocs = (c->idx & 1) ? 2 : 1;
+  /* one reported processor (no inner fan-out) or, for every fourth PCA / CPCA case, two: PCA / CPCA then run their threaded matrix-vector kernels inside each caller */
+  libsci_verif_nprocs = (c->idx % 4 == 1 && (g_prop == B_C01 || (g_prop == B_C09 && !vh_is_tsan()))) ? 2 : 1;      /* only PCA / CPCA have threaded kernels inside; the fan-out is costly under the sanitizers */
+  if (libsci_verif_nprocs == 2) reps = vh_is_tsan() ? 1 : 2;
   vh_class(c, "concurrent-callers-%s-%d-np%zu", BNAME[g_prop], K, libsci_verif_nprocs);
   vh_desc(c, "%d threads x %d repetitions of the %s bundle on private data", K, reps, BNAME[g_prop]);
   for (t = 0; t < K; t++) { memset(&w[t], 0, sizeof w[t]); w[t].prop = g_prop; w[t].reps = reps; if (t) w[t].p = w[0].p; make_data(c, &w[t]); }
